@@ -93,11 +93,22 @@ def run_harness(binary, args, timeout=3600, env_extra=None):
     if env_extra:
         env.update(env_extra)
     t0 = time.time()
-    try:
-        p = subprocess.run([binary] + args, stdout=subprocess.PIPE, stderr=subprocess.PIPE, text=True,
-                           timeout=timeout, env=env, cwd=VERIF)
-    except subprocess.TimeoutExpired:
-        raise ToolError("harness timed out: " + " ".join(args))
+    def launch():
+        try:
+            return subprocess.run([binary] + args, stdout=subprocess.PIPE, stderr=subprocess.PIPE, text=True,
+                                  timeout=timeout, env=env, cwd=VERIF)
+        except subprocess.TimeoutExpired:
+            raise ToolError("harness timed out: " + " ".join(args))
+    p = launch()
+    if p.returncode < 0 or p.returncode in (134, 139):
+        # A violation must be reproducible from its replay file: the workload is a function of the seed, so the same command is run
+        # once more. A crash of the code under test (stack overflow, abort) comes back; a death of the harness process that does not
+        # (seen once: SIGSEGV inside libc's thread bookkeeping on a heavily overloaded machine) is not attributed to the code under test.
+        first = p
+        p = launch()
+        if not (p.returncode < 0 or p.returncode in (134, 139)):
+            log("harness %s died with signal %d once and ran to completion when repeated with the same seed: not reproducible, not a verdict" %
+                (args[0], first.returncode))
     if p.returncode < 0 or p.returncode in (134, 139):
         # killed by a signal (abort / stack overflow) while executing code under test: that is data, not tool trouble
         e = CodeCrash("harness %s killed by signal %d while running the code under test\n%s" %
